@@ -522,6 +522,17 @@ func TestCheck(t *testing.T) {
 		})
 	}
 
+	// bursts: receptions, submissions and a peer appearance back to back, partly at the instant of the retry job
+	for _, a := range []string{"epidemic", "spray", "prophet", "sensor-mule"} {
+		a := a
+		r.Group("burst-"+a, r.Pick(40, 1200), func(i int, rng *report.Rand) {
+			err := bubble.Run(nil, func(t *testing.T) { burst(r, a, i, rng) })
+			if err != nil {
+				r.Violation("c05.node-deadlock-or-panic:"+errClass(err), err.Error(), map[string]interface{}{"algorithm": a, "workload": "burst"})
+			}
+		})
+	}
+
 	// R6: two transmissions of one bundle fail at the same moment (lost-update interleaving forced at the hook)
 	for _, a := range []string{"epidemic", "prophet", "spray", "sensor-mule"} {
 		a := a
